@@ -727,6 +727,7 @@ def suite_filter(ck, sources=None, import_cap=None):
         sources = hand_specs() + generated_specs(ck, ck.scale(10, 90))
     budget = ck.scale(16, 36)
     import_cap = import_cap if import_cap is not None else ck.scale(8, 16)
+    deferred = []       # (env, kinds, pending, reqs): one driver call for all specs (start-up of the driver dominates)
     for label, specs in sources:
         try:
             env = SpecEnv(label, specs)
@@ -831,73 +832,87 @@ def suite_filter(ck, sources=None, import_cap=None):
                                      'generated from the full Api does' % exc, sig,
                                      {'suite': 'graph.filter', 'spec': label, 'specs': env.specs, 'whitelist': small,
                                       'detail': {'exception': exc, 'message': text}})
-        # correspondence with the model
-        rep = ck.driver(reqs)
-        for (plan, wl, real, info, problems), m in zip(pending, rep):
-            if 'protocol_error' in m:
-                ck.disagree('graph.filter', {'spec': label, 'whitelist': wl}, 'n/a', m)
-                continue
-            hyps = m['hyps']
-            mres = m['result']
-            if real[0] == 'ok':
-                t, a, r = info.get('retained') or retained(real[1])
-                realc = {'types': sorted(Reference.label(x) for x in t), 'routes': sorted(Reference.label(x) for x in r),
-                         'aliases': sorted(Reference.label(x) for x in a)}
+        slim = []
+        for plan, wl, real, info, problems in pending:
+            if real[0] == 'ok' and 'retained' not in info:
+                info['retained'] = retained(real[1])
+            slim.append((plan, wl, (real[0], None if real[0] == 'ok' else real[1]), info, problems))
+        deferred.append((env, kinds, slim, reqs))
+    allreqs = [r for _e, _k, _p, reqs in deferred for r in reqs]
+    rep = ck.driver(allreqs) if allreqs else []
+    pos = 0
+    for env, kinds, pending, reqs in deferred:
+        _compare_with_model(ck, env, kinds, pending, rep[pos:pos + len(reqs)])
+        pos += len(reqs)
+
+
+def _compare_with_model(ck, env, kinds, pending, rep):
+    label = env.label
+    for (plan, wl, real, info, problems), m in zip(pending, rep):
+        if 'protocol_error' in m:
+            ck.disagree('graph.filter', {'spec': label, 'whitelist': wl}, 'n/a', m)
+            continue
+        hyps = m['hyps']
+        mres = m['result']
+        if real[0] == 'ok':
+            t, a, r = info['retained']
+            realc = {'types': sorted(Reference.label(x) for x in t), 'routes': sorted(Reference.label(x) for x in r),
+                     'aliases': sorted(Reference.label(x) for x in a)}
+        else:
+            realc = {'error': True}
+        if 'ok' in mres:
+            modelc = {'types': sorted(mres['ok']['types']), 'routes': sorted(mres['ok']['routes']),
+                      'aliases': sorted(mres['ok']['aliases'])}
+        else:
+            modelc = {'error': True}
+        case = {'spec': label, 'whitelist': wl, 'specs': env.specs if len(json.dumps(env.specs)) < 4000 else label}
+        if realc == modelc:
+            ck.agree('graph.filter')
+        elif not hyps['docs_agree']:
+            # a doc string is read in a namespace that resolves it differently: the outcome of the real walk
+            # depends on the iteration order of Python sets (which call reaches the shared Field object first)
+            ck.stat('graph.filter.order_dependent_mismatch')
+        else:
+            ck.disagree('graph.filter', case, _brief(realc), _brief(modelc))
+        if real[0] == 'error' and 'error' in mres:
+            want = type(real[1]).__name__
+            if mres['error']['kind'] == want:
+                ck.agree('graph.filter.error_kind')
+            elif hyps['docs_agree']:
+                ck.disagree('graph.filter.error_kind', case, want, mres['error'])
+        # the Lean reference closure against the Python reference closure (spec level both)
+        if info['wellformed']:
+            pyc = sorted(Reference.label(x) for x in info['closure'])
+            if sorted(m['closure']) == pyc:
+                ck.agree('graph.closure')
             else:
-                realc = {'error': True}
-            if 'ok' in mres:
-                modelc = {'types': sorted(mres['ok']['types']), 'routes': sorted(mres['ok']['routes']),
-                          'aliases': sorted(mres['ok']['aliases'])}
-            else:
-                modelc = {'error': True}
-            case = {'spec': label, 'whitelist': wl, 'specs': env.specs if len(json.dumps(env.specs)) < 4000 else label}
-            if realc == modelc:
-                ck.agree('graph.filter')
-            elif not hyps['docs_agree']:
-                # a doc string is read in a namespace that resolves it differently: the outcome of the real walk
-                # depends on the iteration order of Python sets (which call reaches the shared Field object first)
-                ck.stat('graph.filter.order_dependent_mismatch')
-            else:
-                ck.disagree('graph.filter', case, _brief(realc), _brief(modelc))
-            if real[0] == 'error' and 'error' in mres:
-                want = type(real[1]).__name__
-                if mres['error']['kind'] == want:
-                    ck.agree('graph.filter.error_kind')
-                elif hyps['docs_agree']:
-                    ck.disagree('graph.filter.error_kind', case, want, mres['error'])
-            # the Lean reference closure against the Python reference closure (spec level both)
-            if info['wellformed']:
-                pyc = sorted(Reference.label(x) for x in info['closure'])
-                if sorted(m['closure']) == pyc:
-                    ck.agree('graph.closure')
+                ck.disagree('graph.closure', case, _brief(pyc), _brief(sorted(m['closure'])))
+            if not hyps['refs_ok']:
+                ck.disagree('graph.wf', case, 'dump of a compiled Api', {'refs_ok': False})
+            for h, v in hyps.items():
+                ck.hist('graph.hyp.' + h, v)
+            # the _partial theorems, evaluated: with the hypotheses, retained types = types of the closure
+            if 'ok' in mres and hyps['docs_agree'] and hyps['tag_defaults_ok'] and hyps['route_docs_closed']:
+                ctypes = sorted(i for i in m['closure'] if kinds.get(i) in ('struct', 'union'))
+                if ctypes == sorted(mres['ok']['types']):
+                    ck.agree('graph.thm.filter_types_eq_closure')
                 else:
-                    ck.disagree('graph.closure', case, _brief(pyc), _brief(sorted(m['closure'])))
-                if not hyps['refs_ok']:
-                    ck.disagree('graph.wf', case, 'dump of a compiled Api', {'refs_ok': False})
-                for h, v in hyps.items():
-                    ck.hist('graph.hyp.' + h, v)
-                # the _partial theorems, evaluated: with the hypotheses, retained types = types of the closure
-                if 'ok' in mres and hyps['docs_agree'] and hyps['tag_defaults_ok'] and hyps['route_docs_closed']:
-                    ctypes = sorted(i for i in m['closure'] if kinds.get(i) in ('struct', 'union'))
-                    if ctypes == sorted(mres['ok']['types']):
-                        ck.agree('graph.thm.filter_types_eq_closure')
+                    ck.disagree('graph.thm.filter_types_eq_closure', case, ctypes, sorted(mres['ok']['types']))
+                if hyps['seed_doc_routes_kept']:
+                    croutes = sorted(i for i in m['closure'] if kinds.get(i) == 'route')
+                    if croutes == sorted(mres['ok']['routes']):
+                        ck.agree('graph.thm.filter_routes_eq_closure')
                     else:
-                        ck.disagree('graph.thm.filter_types_eq_closure', case, ctypes, sorted(mres['ok']['types']))
-                    if hyps['seed_doc_routes_kept']:
-                        croutes = sorted(i for i in m['closure'] if kinds.get(i) == 'route')
-                        if croutes == sorted(mres['ok']['routes']):
-                            ck.agree('graph.thm.filter_routes_eq_closure')
-                        else:
-                            ck.disagree('graph.thm.filter_routes_eq_closure', case, croutes, sorted(mres['ok']['routes']))
-        if len(ck.samples) < 6 and pending:
-            for plan, wl, real, info, problems in pending:
-                if plan == 'random' and real[0] == 'ok' and info['wellformed']:
-                    t, a, r = info['retained']
-                    ck.sample({'spec': label, 'whitelist': wl,
-                               'kept': '%d/%d types, %d/%d routes, %d aliases' % (
-                                   len(t), len(env.all_types), len(r), len(env.all_routes), len(a)),
-                               'closure_size': len(info['closure'])})
-                    break
+                        ck.disagree('graph.thm.filter_routes_eq_closure', case, croutes, sorted(mres['ok']['routes']))
+    if len(ck.samples) < 6 and pending:
+        for plan, wl, real, info, problems in pending:
+            if plan == 'random' and real[0] == 'ok' and info['wellformed']:
+                t, a, r = info['retained']
+                ck.sample({'spec': label, 'whitelist': wl,
+                           'kept': '%d/%d types, %d/%d routes, %d aliases' % (
+                               len(t), len(env.all_types), len(r), len(env.all_routes), len(a)),
+                           'closure_size': len(info['closure'])})
+                break
 
 
 def _brief(x):
@@ -1035,6 +1050,8 @@ def suite_linearize(ck, specs_list=None, judge=None):
         def judge(what, sig, case):
             ck.stat('graph.linearize.oracle_failure.' + sig.get('kind', '?') +
                     ('.' + sig['through'] if 'through' in sig else ''))
+    lin_reqs, lin_meta = [], []          # one driver call for all specs
+    af_reqs, af_meta = [], []
     for label, specs in specs_list:
         try:
             api = compile_real([tuple(x) for x in specs])
@@ -1044,7 +1061,6 @@ def suite_linearize(ck, specs_list=None, judge=None):
         case0 = {'suite': 'graph.linearize', 'spec': label, 'specs': [list(x) for x in specs]}
         for what, sig, detail in judge_normalized(api):
             judge(what, sig, dict(case0, detail=detail))
-        rounds = []
         for rnd in range(ck.scale(2, 4)):
             # round 0: the lists as `normalize` left them; later rounds: shuffled (the algorithms must not rely on it)
             if rnd:
@@ -1069,39 +1085,10 @@ def suite_linearize(ck, specs_list=None, judge=None):
                                       'norm_aliases': [tid(a) for a in ns.aliases]})
             for what, sig, detail in judge_normalized(api):
                 judge(what, sig, dict(case0, detail=detail))
-            rounds.append((g, real))
-        rep = ck.driver([{'op': 'graph.linearize', 'graph': g} for g, _ in rounds])
-        for (g, real), m in zip(rounds, rep):
-            if 'protocol_error' in m:
-                ck.disagree('graph.linearize', {'spec': label}, 'n/a', m)
-                continue
-            model = {}
-            for n in m['namespaces']:
-                model[n['name']] = {'types': n['types'].get('ok', n['types']), 'aliases': n['aliases'].get('ok', n['aliases']),
-                                    'norm_routes': n['norm_routes'], 'norm_types': n['norm_types'],
-                                    'norm_aliases': n['norm_aliases']}
-            for nsn in real:
-                for part in ('types', 'aliases'):
-                    if real[nsn][part] == model.get(nsn, {}).get(part):
-                        ck.agree('graph.linearize')
-                    else:
-                        ck.disagree('graph.linearize', {'spec': label, 'ns': nsn, 'part': part,
-                                                        'input': [x for x in g['namespaces'] if x['name'] == nsn]},
-                                    real[nsn][part], model.get(nsn, {}).get(part))
-                for part in ('norm_routes', 'norm_types', 'norm_aliases'):
-                    if real[nsn][part] == model.get(nsn, {}).get(part):
-                        ck.agree('graph.normalize')
-                    else:
-                        ck.disagree('graph.normalize', {'spec': label, 'ns': nsn, 'part': part}, real[nsn][part],
-                                    model.get(nsn, {}).get(part))
-            if m['norm_namespaces'] == sorted(api.namespaces):
-                ck.agree('graph.normalize')
-            else:
-                ck.disagree('graph.normalize', {'spec': label, 'part': 'namespaces'}, sorted(api.namespaces), m['norm_namespaces'])
+            lin_reqs.append({'op': 'graph.linearize', 'graph': g})
+            lin_meta.append((label, g, real, sorted(api.namespaces)))
         # all_fields
-        g = dump_graph(api)
-        m = ck.driver([{'op': 'graph.allfields', 'graph': g}])[0]
-        by_id = {t['id']: t for t in m.get('types', [])}
+        types = []
         for ns in api.namespaces.values():
             for d in ns.data_types:
                 for what, sig, detail in judge_all_fields(d):
@@ -1112,8 +1099,6 @@ def suite_linearize(ck, specs_list=None, judge=None):
                     real['optional'] = _owned(d, d.all_optional_fields)
                 else:
                     real['required'], real['optional'] = [], []
-                mt = by_id.get(tid(d), {})
-                model = {k: mt.get(k, {}).get('ok', mt.get(k)) for k in ('all', 'required', 'optional')}
                 depth = 0
                 c = d.parent_type
                 while c is not None:
@@ -1121,10 +1106,52 @@ def suite_linearize(ck, specs_list=None, judge=None):
                     c = c.parent_type
                 ck.case(('allfields', label, tid(d)), nontrivial=depth > 0)
                 ck.hist('graph.allfields.inheritance_depth', depth)
-                if real == model:
-                    ck.agree('graph.allfields')
+                types.append((tid(d), real))
+        af_reqs.append({'op': 'graph.allfields', 'graph': dump_graph(api)})
+        af_meta.append((label, types))
+    rep = ck.driver(lin_reqs + af_reqs) if lin_reqs or af_reqs else []
+    for (label, g, real, ns_sorted), m in zip(lin_meta, rep[:len(lin_reqs)]):
+        if 'protocol_error' in m:
+            ck.disagree('graph.linearize', {'spec': label}, 'n/a', m)
+            continue
+        model = {}
+        for n in m['namespaces']:
+            # side conditions of the linearization theorems of Props/C02 (own list, link-closed, no repetition)
+            if n.get('hyps_ok'):
+                ck.agree('graph.linearize.theorem_hypotheses')
+            else:
+                ck.disagree('graph.linearize.theorem_hypotheses', {'spec': label, 'ns': n['name']},
+                            'lists of a compiled Api', {'hyps_ok': False})
+            model[n['name']] = {'types': n['types'].get('ok', n['types']), 'aliases': n['aliases'].get('ok', n['aliases']),
+                                'norm_routes': n['norm_routes'], 'norm_types': n['norm_types'],
+                                'norm_aliases': n['norm_aliases']}
+        for nsn in real:
+            for part in ('types', 'aliases'):
+                if real[nsn][part] == model.get(nsn, {}).get(part):
+                    ck.agree('graph.linearize')
                 else:
-                    ck.disagree('graph.allfields', {'spec': label, 'type': tid(d)}, real, model)
+                    ck.disagree('graph.linearize', {'spec': label, 'ns': nsn, 'part': part,
+                                                    'input': [x for x in g['namespaces'] if x['name'] == nsn]},
+                                real[nsn][part], model.get(nsn, {}).get(part))
+            for part in ('norm_routes', 'norm_types', 'norm_aliases'):
+                if real[nsn][part] == model.get(nsn, {}).get(part):
+                    ck.agree('graph.normalize')
+                else:
+                    ck.disagree('graph.normalize', {'spec': label, 'ns': nsn, 'part': part}, real[nsn][part],
+                                model.get(nsn, {}).get(part))
+        if m['norm_namespaces'] == ns_sorted:
+            ck.agree('graph.normalize')
+        else:
+            ck.disagree('graph.normalize', {'spec': label, 'part': 'namespaces'}, ns_sorted, m['norm_namespaces'])
+    for (label, types), m in zip(af_meta, rep[len(lin_reqs):]):
+        by_id = {t['id']: t for t in m.get('types', [])}
+        for ident, real in types:
+            mt = by_id.get(ident, {})
+            model = {k: mt.get(k, {}).get('ok', mt.get(k)) for k in ('all', 'required', 'optional')}
+            if real == model:
+                ck.agree('graph.allfields')
+            else:
+                ck.disagree('graph.allfields', {'spec': label, 'type': ident}, real, model)
 
 
 # ----------------------------------------------------------------------------------------------
